@@ -280,6 +280,18 @@ func applyChange(content string, lines []string, change TextDocumentContentChang
 	startOffset := positionToOffset(lines, change.Range.Start)
 	endOffset := positionToOffset(lines, change.Range.End)
 
+	// Positions past the end of the document clamp to its end; an inverted
+	// range (not defined by the protocol) is treated as an insertion at start.
+	if startOffset > len(content) {
+		startOffset = len(content)
+	}
+	if endOffset > len(content) {
+		endOffset = len(content)
+	}
+	if endOffset < startOffset {
+		endOffset = startOffset
+	}
+
 	// Build new content
 	var result strings.Builder
 	result.WriteString(content[:startOffset])
@@ -293,19 +305,46 @@ func applyChange(content string, lines []string, change TextDocumentContentChang
 
 // positionToOffset converts a Position to a byte offset
 func positionToOffset(lines []string, pos Position) int {
+	// Negative positions are not valid in the protocol; clamp them to zero
+	// instead of indexing out of range.
+	if pos.Line < 0 {
+		return 0
+	}
 	offset := 0
 	for i := 0; i < pos.Line && i < len(lines); i++ {
 		offset += len(lines[i]) + 1 // +1 for newline
 	}
-	if pos.Line < len(lines) {
-		lineLen := len(lines[pos.Line])
-		if pos.Character < lineLen {
-			offset += pos.Character
-		} else {
-			offset += lineLen
+	if pos.Line >= len(lines) {
+		// A line past the last line clamps to the end of the document (the
+		// loop above counted one newline more than the document has).
+		if offset > 0 {
+			offset--
 		}
+		return offset
 	}
-	return offset
+	return offset + utf16ColumnToByteOffset(lines[pos.Line], pos.Character)
+}
+
+// utf16ColumnToByteOffset converts an LSP character offset (UTF-16 code units)
+// within line into a byte offset. Columns past the end of the line clamp to
+// the line length; a column inside a surrogate pair maps to the start of that
+// character.
+func utf16ColumnToByteOffset(line string, character int) int {
+	if character <= 0 {
+		return 0
+	}
+	units := 0
+	for i, r := range line {
+		width := 1
+		if r >= 0x10000 {
+			width = 2
+		}
+		if units+width > character {
+			return i
+		}
+		units += width
+	}
+	return len(line)
 }
 
 // GetWordAtPosition returns the word at the given position.
@@ -339,7 +378,7 @@ func positionToOffset(lines []string, pos Position) int {
 // This method is safe for concurrent use as it operates on document fields
 // without modifying state.
 func (doc *Document) GetWordAtPosition(pos Position) string {
-	if pos.Line >= len(doc.Lines) {
+	if pos.Line < 0 || pos.Character < 0 || pos.Line >= len(doc.Lines) {
 		return ""
 	}
 
